@@ -14,8 +14,9 @@
      tiers, not by this theorem.
    - [oke]: literals are single characters and class nodes have size 1 (parser invariants), every
      backreference names a group opened earlier (what the analysis checks), counted repeats have
-     lo <= hi (what the parser checks), and the pattern contains no conditional (known finding
-     F-condleak shows the statement is FALSE for conditionals under an atomic cut).
+     lo <= hi (what the parser checks), and no conditional sits inside the body of an atomic
+     group, of a look-around or in the condition position of another conditional (known finding
+     F-condleak: the statement is FALSE there; everywhere else conditionals are covered).
    Look-behinds over alternations of different lengths are inside the scope: the compiler turns
    them into an alternation (positive) / a sequence (negative) of look-behinds, and the reference
    semantics reads them the same way (Oniguruma's reading). *)
@@ -35,7 +36,7 @@ Theorem C01_vm_follows_reference :
   forall (bs : N -> bool) (e : expr) (p : prog),
   compile bs (wrap e) = inr p ->
   nodeleg (p_body p) ->
-  oke 0 (wrap e) ->
+  oke true 0 (wrap e) ->
   forall fuel : nat, length (concat cs) < fuel ->
   forall (max_st : nat) (lim : option N) (fuelv : nat),
   match fst (vm_run cx p max_st lim fuelv) with
@@ -63,7 +64,7 @@ Definition ex_p : prog :=
 
 Example ex_hyps :
   valid_chars [[97]; [98]; [45]] /\ compile (fun _ => false) (wrap ex_e) = inr ex_p /\
-  nodeleg (p_body ex_p) /\ oke 0 (wrap ex_e).
+  nodeleg (p_body ex_p) /\ oke true 0 (wrap ex_e).
 Proof.
   split; [repeat constructor|]. split; [reflexivity|]. split; [reflexivity|].
   unfold oke. cbn. repeat split; auto; try lia; try reflexivity.
